@@ -197,7 +197,7 @@ def run(F, R, ctx):
                     any(e[1] == "OpaqueReferenceNursery" for _, e in lib.family_events(F, f_, "fld")):
                 rel.append(f_)
     R.inst("C20.c", "LifetimeGuard::drop frees what was counted", d is not None and bool(rel)
-           and any(e[1] == "LifetimeGuard" and e[2] == "count" for _, _, e in d.events("fld")),
+           and any(e[1] == "LifetimeGuard" and e[2] == "count" for _, e in lib.deep_events(F, d, "fld", depth=2)),
            "LifetimeGuard has no destructor handing its count to a release routine of OpaqueReferenceNursery: lent references stay "
            "reachable from scripts after the scope ends", "%s:%s" % (lg["file"], lg["line"]), sample=True)
     flds = set(e[2] for f_ in rel for _, e in lib.family_events(F, f_, "fld") if e[1] == "OpaqueReferenceNursery")
